@@ -152,7 +152,10 @@ func (e *Engine) call(fr *frame, st *State, c *ast.CallExpr, k func(st *State, r
 						items = append(items, e.box(v, e.Lists[lt.Name]))
 					}
 					st.facts = append(st.facts, sx.App(">=", lenOf(l), sx.Int(0)))
-					k(st, []Val{e.listAppend(l, items...)})
+					// the result is named and its length stated, so that triggers over len(.) find the new list
+					r := e.name(st, e.listAppend(l, items...))
+					st.facts = append(st.facts, sx.App("=", sx.App(lt.Name+"_len", r.T), sx.App("+", lenOf(l), sx.Int(int64(len(items))))))
+					k(st, []Val{r})
 				})
 				return
 			}
@@ -618,69 +621,81 @@ func (e *Engine) switchStmt(fr *frame, st *State, s *ast.SwitchStmt, k func(st *
 func (e *Engine) rangeLoop(fr *frame, st *State, label string, s *ast.RangeStmt, k func(st *State)) {
 	info := fr.info
 	e.eval(fr, st, s.X, func(st *State, xs Val) {
-		mapRange := false
-		if xs.Ty.K == spec.KMap {
-			if !e.Sweep {
-				panic("range over a Go map (iteration order is unspecified): outside the subset")
-			}
-			// sweep mode: an unknown number of iterations over unknown keys and values (over-approximation)
-			n := e.sym("maplen", "Int")
-			st.facts = append(st.facts, sx.App(">=", n, sx.Int(0)))
-			xs = mk(n, spec.KInt)
-			xs.Pair = nil
-			mapRange = true
-		}
-
-		idxObj := types.Object(types.NewVar(token.NoPos, nil, "$i", types.Typ[types.Int]))
-		var mapKeyObj types.Object
-		if id, ok := s.Key.(*ast.Ident); ok && id.Name != "_" && mapRange {
-			mapKeyObj = info.Defs[id]
-			if mapKeyObj == nil {
-				mapKeyObj = info.Uses[id]
-			}
-		} else if id, ok := s.Key.(*ast.Ident); ok && id.Name != "_" {
-			if o := info.Defs[id]; o != nil {
-				idxObj = o
-			} else {
-				idxObj = info.Uses[id]
-			}
-		}
-		st.vars[idxObj] = mk(sx.Int(0), spec.KInt)
-		var n *sx.T
-		if xs.Ty.K == spec.KInt {
-			n = xs.T // Go 1.22: for i := range n
-		} else {
-			n = lenOf(xs)
-			if xs.Ty.K == spec.KList { // program values are well-formed lists
+		run := func(st *State) {
+			mapRange := false
+			if xs.Ty.K == spec.KMap {
+				if !e.Sweep {
+					panic("range over a Go map (iteration order is unspecified): outside the subset")
+				}
+				// sweep mode: an unknown number of iterations over unknown keys and values (over-approximation)
+				n := e.sym("maplen", "Int")
 				st.facts = append(st.facts, sx.App(">=", n, sx.Int(0)))
+				xs = mk(n, spec.KInt)
+				xs.Pair = nil
+				mapRange = true
 			}
-		}
-		e.loopCore(fr, st, label, s, map[types.Object]bool{idxObj: true}, func(st *State, kk cont) {
-			kk(st, mk(sx.App("<", st.vars[idxObj].T, n), spec.KBool))
-		}, func(st *State, kk func(st *State)) {
-			if mapKeyObj != nil {
-				st.vars[mapKeyObj] = e.freshOf(e.typeOf(mapKeyObj.Type()), "mapkey")
-			}
-			if id, ok := s.Value.(*ast.Ident); ok && id.Name != "_" {
-				o := info.Defs[id]
-				if o == nil {
-					o = info.Uses[id]
+
+			idxObj := types.Object(types.NewVar(token.NoPos, nil, "$i", types.Typ[types.Int]))
+			var mapKeyObj types.Object
+			if id, ok := s.Key.(*ast.Ident); ok && id.Name != "_" && mapRange {
+				mapKeyObj = info.Defs[id]
+				if mapKeyObj == nil {
+					mapKeyObj = info.Uses[id]
 				}
-				i := st.vars[idxObj].T
-				if mapRange {
-					st.vars[o] = e.freshOf(e.typeOf(o.Type()), "mapval")
-				} else if xs.Ty.K == spec.KNB {
-					st.vars[o] = mk(sx.App("str.to_code", sx.App("str.at", xs.bytes(), i)), spec.KInt)
+			} else if id, ok := s.Key.(*ast.Ident); ok && id.Name != "_" {
+				if o := info.Defs[id]; o != nil {
+					idxObj = o
 				} else {
-					st.vars[o] = Val{TV: spec.TV{T: sx.App("select", arrOf(xs), i), Ty: e.Lists[xs.Ty.Name]}}
+					idxObj = info.Uses[id]
 				}
 			}
-			kk(st)
-		}, func(st *State, kk func(st *State)) {
-			cur := st.vars[idxObj]
-			st.vars[idxObj] = mk(sx.App("+", cur.T, sx.Int(1)), spec.KInt)
-			kk(st)
-		}, s.Body, idxObj, k)
+			st.vars[idxObj] = mk(sx.Int(0), spec.KInt)
+			var n *sx.T
+			if xs.Ty.K == spec.KInt {
+				n = xs.T // Go 1.22: for i := range n
+			} else {
+				n = lenOf(xs)
+				if xs.Ty.K == spec.KList { // program values are well-formed lists
+					st.facts = append(st.facts, sx.App(">=", n, sx.Int(0)))
+				}
+			}
+			e.loopCore(fr, st, label, s, map[types.Object]bool{idxObj: true}, func(st *State, kk cont) {
+				kk(st, mk(sx.App("<", st.vars[idxObj].T, n), spec.KBool))
+			}, func(st *State, kk func(st *State)) {
+				if mapKeyObj != nil {
+					st.vars[mapKeyObj] = e.freshOf(e.typeOf(mapKeyObj.Type()), "mapkey")
+				}
+				if id, ok := s.Value.(*ast.Ident); ok && id.Name != "_" {
+					o := info.Defs[id]
+					if o == nil {
+						o = info.Uses[id]
+					}
+					i := st.vars[idxObj].T
+					if mapRange {
+						st.vars[o] = e.freshOf(e.typeOf(o.Type()), "mapval")
+					} else if xs.Ty.K == spec.KNB {
+						st.vars[o] = mk(sx.App("str.to_code", sx.App("str.at", xs.bytes(), i)), spec.KInt)
+					} else {
+						st.vars[o] = Val{TV: spec.TV{T: sx.App("select", arrOf(xs), i), Ty: e.Lists[xs.Ty.Name]}}
+					}
+				}
+				kk(st)
+			}, func(st *State, kk func(st *State)) {
+				cur := st.vars[idxObj]
+				st.vars[idxObj] = mk(sx.App("+", cur.T, sx.Int(1)), spec.KInt)
+				kk(st)
+			}, s.Body, idxObj, k)
+		}
+		// neo-go compiles `range x` to SIZE without a null test (unlike len(x)): ranging over a nil slice faults
+		if !e.Go64 && (xs.Ty.K == spec.KList || xs.Ty.K == spec.KNB) && xs.T != nil {
+			notNull := sx.Not(sx.App("isnull", xs.T))
+			if xs.Ty.K == spec.KList {
+				notNull = sx.Not(sx.App(xs.Ty.Name+"_null", xs.T))
+			}
+			e.guard(fr, st, notNull, "range over a nil slice", run)
+			return
+		}
+		run(st)
 	})
 }
 
